@@ -504,9 +504,13 @@ impl Template {
                 (MaybeOpen | Key, c) if c.is_ascii_whitespace() => {
                     // If we find whitespace where the variable key is supposed to go,
                     // backtrack and act as if this was a literal.
-                    buf.push(c);
-                    let mut new = String::from("{");
-                    new.push_str(&buf);
+                    // In `MaybeOpen`, `buf` still holds the literal text preceding the brace; in
+                    // `Key` it holds what followed the brace.
+                    let mut new = match state {
+                        MaybeOpen => format!("{buf}{{"),
+                        _ => format!("{{{buf}"),
+                    };
+                    new.push(c);
                     buf.clear();
                     parts.push(TemplatePart::Literal(TabExpandedString::new(
                         new.into(),
